@@ -2,3 +2,4 @@ SPECIFICATION FairSpec
 INVARIANTS DeliveredAtMostOnce CleanupAtMostOnce CleanupOnlyAfterOutstandingNext StopWinsWithoutSource Finally
 PROPERTY Termination
 CHECK_DEADLOCK FALSE
+CONSTANT Mut = "none"
